@@ -10,6 +10,7 @@ import (
 	"path/filepath"
 	"strings"
 	"sync/atomic"
+	"syscall"
 	"time"
 
 	"github.com/elastic/go-seccomp-bpf/arch"
@@ -508,7 +509,7 @@ func checkC16(tier, replay string) int {
 	ctx.Cov["read_fault_runs"] = faults
 	ctx.Cov["max_lines"] = maxLines
 	ctx.Cov["long_function_sweep_max"] = c16LongFunctions
-	ctx.Cov["rule"] = fmt.Sprintf("all texts of <= %d lines over a %d-shape line alphabet (5 kinds of function marker incl. 'TEXT ', bare 'TEXT' and a generic symbol containing blanks, raw syscall instruction with and without location fields, the other architecture's raw instruction, number loads into AX/BP/stack, negative/unparsable/unknown numbers, the XOR idiom, calls of syscall.Syscall with and without location fields, neutral, empty and a 70000-byte line) for both parsers, with and without trailing newline, parsed by the real ExtractSyscalls under recover and compared with an independent site-model parser (number, name, caller, location), with the oracle tables, for monotonicity under appended functions and for an error whenever the text cannot be read to the end; plus the real `go tool objdump` output of a sample Go program built for amd64 and 386 (whole, and cut at function boundaries) compared with a text-level site model written without regular expressions, generated multi-function listings (all twelve wrapper entry points as callees and as containing functions; also with numbers carrying the x32 marker bit 0x40000000 on top of a valid number), a size sweep (load and site n neutral instructions apart for every n up to the bound in long_function_sweep_max, alone and followed by another function) and a read error injected (strace) at every read call of 3 listings; non-trivial = parses that report at least one syscall", maxLines, shCount)
+	ctx.Cov["rule"] = fmt.Sprintf("all texts of <= %d lines over a %d-shape line alphabet (5 kinds of function marker incl. 'TEXT ', bare 'TEXT' and a generic symbol containing blanks, raw syscall instruction with and without location fields, the other architecture's raw instruction, number loads into AX/BP/stack, negative/unparsable/unknown numbers, the XOR idiom, calls of syscall.Syscall with and without location fields, neutral, empty and a 70000-byte line) for both parsers, with and without trailing newline, parsed by the real ExtractSyscalls under recover and compared with an independent site-model parser (number, name, caller, location), with the oracle tables, for monotonicity under appended functions and for an error whenever the text cannot be read to the end; plus the real `go tool objdump` output of a sample Go program built for amd64 and 386 (whole, and cut at function boundaries) compared with a text-level site model written without regular expressions, generated multi-function listings (all twelve wrapper entry points as callees and as containing functions; also with numbers carrying the x32 marker bit 0x40000000 on top of a valid number), a size sweep (load and site n neutral instructions apart for every n up to the bound in long_function_sweep_max, alone and followed by another function) the same three listings read through a named pipe written in pieces, and a read error injected (strace) at every read call of 3 listings; non-trivial = parses that report at least one syscall", maxLines, shCount)
 	ctx.Assumptions = []string{"site model: the number is taken from the nearest preceding number-loading instruction of the same function after the previous detected site; raw sites inside syscall.Syscall wrappers are not sites", "strace fault injection (-e inject=read:error=EIO:when=N) realises read failures"}
 	ctx.Sample(map[string]any{"text": []string{"TEXT main.f0(SB) /src/f.go", "  f.go:1\t0x401001\t0f05\tMOVQ $0x3b, AX", "TEXT main.f2(SB) /src/f.go", "  f.go:3\t0x401003\t0f05\tSYSCALL"}, "expected": "no syscall: the load belongs to another function"})
 	return ctx.Finish()
@@ -640,6 +641,49 @@ func c16ReadFaults(ctx *evid.Ctx, scratch string) int64 {
 			continue
 		}
 		total := int(base["n"].(float64))
+		// the same text arriving through a named pipe (its size as a file says nothing about its content), written in pieces
+		for _, chunk := range []int{b.Len(), 4096, 1000} {
+			fifo := filepath.Join(scratch, fmt.Sprintf("fifo%d-%d", li, chunk))
+			if syscall.Mkfifo(fifo, 0o644) != nil {
+				ctx.Capped("cannot create a named pipe")
+				break
+			}
+			wdone := make(chan struct{})
+			go func() {
+				defer close(wdone)
+				f, err := os.OpenFile(fifo, os.O_WRONLY, 0)
+				if err != nil {
+					return
+				}
+				defer f.Close()
+				data := []byte(b.String())
+				for len(data) > 0 {
+					k := chunk
+					if k > len(data) {
+						k = len(data)
+					}
+					if _, err := f.Write(data[:k]); err != nil {
+						return
+					}
+					data = data[k:]
+				}
+			}()
+			out, err := run(nil, "x86_64", fifo)
+			runs++
+			// release a writer that nobody read from (a reader that never opened the pipe)
+			if rf, e := os.OpenFile(fifo, os.O_RDONLY|syscall.O_NONBLOCK, 0); e == nil {
+				rf.Close()
+			}
+			<-wdone
+			os.Remove(fifo)
+			if err != nil {
+				ctx.Violation("C16:fault:crash", "extraction crashed on a named pipe: "+err.Error(), map[string]any{"listing": li, "pipe": true})
+				continue
+			}
+			if got := int(out["n"].(float64)); out["err"] == nil && got < total {
+				ctx.Violation("C16:fault:pipe-partial-without-error", fmt.Sprintf("a %d-byte listing read through a named pipe (written in pieces of %d bytes) gave nil error and %d of %d syscalls", b.Len(), chunk, got, total), map[string]any{"listing_functions": nFuncs, "pipe_chunk": chunk})
+			}
+		}
 		for n := 1; n <= 40; n++ {
 			out, err := run([]string{"strace", "-f", "-o", "/dev/null", "-P", path, "-e", "trace=read", "-e", fmt.Sprintf("inject=read:error=EIO:when=%d", n)}, "x86_64", path)
 			runs++
